@@ -1106,7 +1106,16 @@ def main(argv=None):
                       '(file-object driver)'],
         'simulated_or_stubbed': ['file system (SimFS: in-memory inodes, op log, kill = freeze + torn write)',
                                  'time module (SimClock) in simulation.py / algorithm.py / mps_common.py / dmrg.py / '
-                                 'tebd.py / vumps.py', 'SIGINT delivery (handler called at clock reads and path ops)',
+                                 'tebd.py / vumps.py', 'SIGINT / SIGTERM delivery (the registered handler is called at '
+                                 'clock reads, path ops and between the objects of an HDF5 save; SIGTERM without '
+                                 'handler ends the process there)',
+                                 'ARPACK start vectors and numpy global generator (seeded per simulated process)',
+                                 'the second simulation in the directory (real code, run beforehand in a world of its '
+                                 'own; only its files take part)',
+                                 'user script of the algorithm-level families eng_* (stub of ours: writes psi, options '
+                                 'and get_resume_data() with hdf5_io.save at every checkpoint, resumes with '
+                                 'resume_data= / resume_run()); models checks.c18_models.DrivenXXZ, DisorderedTFI and '
+                                 'the user-defined measurements there',
                                  'git rev-parse of version info (stub)', 'logging set-up (disabled)'],
         'reported': reported,
         'harness_errors': [h['harness_error'][-500:] for h in harness_errors[:5]],
@@ -1117,7 +1126,10 @@ def main(argv=None):
         'libhdf5 issues the same sequence of driver-level writes through h5py\'s file-object driver as through its '
         'default POSIX driver',
         'recovery policy of the user: load the output file, else the backup file; resume from the first that loads',
-        'SIGINT is delivered only at Python-level seam points (clock reads, path operations)',
+        'signals are delivered only at Python-level seam points (clock reads, path operations, between the objects of an '
+        'HDF5 save), not inside tensor contractions',
+        'algorithm-level families: a configuration whose final energy answers a 1e-13 perturbation of psi by more than '
+        '1e-9 is skipped (not decidable); the others are compared with max(1e-8, 1e5 x that response)',
         'resume equivalence tolerances per engine class as listed under coverage.tolerances; DMRG with '
         'convergence-dependent sweep counts is compared in the weak form only',
         'sampling, not enumeration, except that the sweep visits every op boundary of the pickle/gzip runs it records',
